@@ -115,6 +115,22 @@ func (rt *runtime) putValue(reference referencer, value Value) {
 	}
 }
 
+// interruptPanic carries a panic raised by a function received on Otto.Interrupt
+// through the script's try statements; catchPanic unwraps it again.
+type interruptPanic struct {
+	value interface{}
+}
+
+// runInterrupt calls a function received on Otto.Interrupt.
+func runInterrupt(fn func()) {
+	defer func() {
+		if caught := recover(); caught != nil {
+			panic(interruptPanic{caught})
+		}
+	}()
+	fn()
+}
+
 func (rt *runtime) tryCatchEvaluate(inner func() Value) (tryValue Value, isException bool) { //nolint:nonamedreturns
 	// resultValue = The value of the block (e.g. the last statement)
 	// throw = Something was thrown
@@ -127,6 +143,9 @@ func (rt *runtime) tryCatchEvaluate(inner func() Value) (tryValue Value, isExcep
 				caught = excep.eject()
 			}
 			switch caught := caught.(type) {
+			case interruptPanic:
+				// Not for the script to catch.
+				panic(caught)
 			case ottoError:
 				isException = true
 				tryValue = objectValue(rt.newErrorObjectError(caught))
